@@ -33,6 +33,7 @@ void harness(void) {
   VERIF_PROLOGUE();
   blake3_hasher h;
   uint8_t which;
+  __CPROVER_assume(which < 7 && ((VERIF_FIN_CASES >> which) & 1));
   CASE(0, 0, 0)   /* empty hasher: the (empty) chunk is the root */
   CASE(1, 0, 1)   /* a partial first chunk is the root */
   CASE(2, 2, 0)   /* no bytes pending: root = parent(S0, S1) */
